@@ -71,6 +71,20 @@ def witness_search(tier, seed):
                     return dict(input=dict(text=text, encoding=enc, try_encodings=encs, out=out, backup=bak), detail="input modified although an output name was given")
                 if open(other, "rb").read() != b"keep" or set(os.listdir(d)) != {"in" + ext, "other.txt"} | ({out} if out else set()) | ({bak} if bak else set()):
                     return dict(input=dict(text=text, encoding=enc, try_encodings=encs, out=out, backup=bak), detail="another file was created or changed")
+        # edits below the top level: the backup still holds the simfile as it stood at block entry
+        for f in os.listdir(d):
+            os.remove(os.path.join(d, f))
+        for ext, text in ((".sm", "#TITLE:a;#NOTES:dance-single:d:Easy:1:0,0,0,0,0:0000;"), (".ssc", "#VERSION:0.83;#TITLE:a;#NOTEDATA:;#STEPSTYPE:x;#DESCRIPTION:d;#NOTES:0000;")):
+            p = os.path.join(d, "in" + ext)
+            open(p, "wb").write(text.encode("utf-8"))
+            sf0 = simfile.open(p)
+            with simfile.mutate(p, backup_filename=os.path.join(d, "bak" + ext)) as sfm:
+                sfm.charts[0].description = "edited"
+                sfm.charts.append(sfm.charts[0])
+            bak = simfile.open(os.path.join(d, "bak" + ext))
+            if list(bak.items()) != list(sf0.items()) or [list(c.items()) for c in bak.charts] != [list(c.items()) for c in sf0.charts]:
+                return dict(input=dict(text=text, edit="chart description edited and a chart appended inside the block", backup=True),
+                            detail=f"the backup has {len(bak.charts)} chart(s), description {bak.charts[0].description!r}; at block entry: 1 chart, {sf0.charts[0].description!r}")
         # a large file in a later encoding of the list: an earlier encoding decodes its first chunks (to text the parser would
         # reject) and fails only further on - the whole file must be decoded before anything is parsed
         for f in os.listdir(d):
